@@ -225,6 +225,9 @@ func fixForm(t *T) *T {
 func (h *H) genT(depth int, allowHash bool, inHash bool) *T {
 	r := h.rng
 	c := r.Intn(20)
+	if depth >= 2 && r.Intn(2) == 0 {
+		c = 12 + r.Intn(8) // keep going down: deeper templates
+	}
 	if depth <= 0 && c >= 12 {
 		c = r.Intn(12)
 	}
@@ -579,7 +582,7 @@ func main() {
 		if i%200 == 0 {
 			h.freshPool()
 		}
-		d := 1 + h.rng.Intn(4)
+		d := 1 + h.rng.Intn(5)
 		var t *T
 		for {
 			t = h.genT(d, h.rng.Intn(3) == 0, false)
